@@ -117,8 +117,13 @@ def fingerprint(o, opaque=(), _stack=None):
         return (type(o).__name__, o)
     if isinstance(o, enum.Enum):
         return ('enum', type(o).__module__, type(o).__qualname__, o.name)
-    if isinstance(o, (type, types.FunctionType, types.BuiltinFunctionType, types.ModuleType)) or isinstance(o, opaque):
+    if isinstance(o, (type, types.BuiltinFunctionType, types.ModuleType)) or isinstance(o, opaque):
         return ('id', id(o))
+    if isinstance(o, types.FunctionType) and not o.__closure__ and not o.__defaults__ and not o.__kwdefaults__ \
+            and not getattr(o, '__dict__', None):
+        # a plain function: the same code in the same globals is the same function (a lambda / local def that is
+        # created anew on every parse has a new identity but not a new behaviour)
+        return ('fn', id(o.__code__), id(o.__globals__))
     if _stack is None:
         _stack = []
     if id(o) in _stack:
@@ -132,7 +137,18 @@ def fingerprint(o, opaque=(), _stack=None):
         if isinstance(o, dict):
             return ('dict', tuple((fingerprint(k, opaque, _stack), fingerprint(v, opaque, _stack)) for k, v in o.items()))
         if isinstance(o, types.MethodType):
-            return ('method', id(o.__func__), fingerprint(o.__self__, opaque, _stack))
+            return ('method', fingerprint(o.__func__, opaque, _stack), fingerprint(o.__self__, opaque, _stack))
+        if isinstance(o, types.FunctionType):
+            # behaviour = code + globals + closure cells + defaults + function attributes
+            cells = []
+            for c in (o.__closure__ or ()):
+                try:
+                    cells.append(fingerprint(c.cell_contents, opaque, _stack))
+                except ValueError:
+                    cells.append(('empty-cell',))
+            return ('fn', id(o.__code__), id(o.__globals__), tuple(cells),
+                    fingerprint(o.__defaults__, opaque, _stack), fingerprint(o.__kwdefaults__, opaque, _stack),
+                    fingerprint(dict(getattr(o, '__dict__', None) or {}), opaque, _stack))
         d = getattr(o, '__dict__', None)
         if isinstance(d, dict):
             state = dict(d)
